@@ -822,12 +822,15 @@ def check_graph_cases(res: Result, cases, procs: int = 1, tag: str = "random") -
         if tag != "exhaustive" or res.evaluations % 997 == 0:
             res.sample({"protocol_line": line, "impl": il, "model": m})
         for key, msg in bad:
+            res.count("oracle-fail:" + key)
+            if _have(res, key):
+                continue
             small = shrink_case(case, lambda c, key=key: bool(graph_fails(c, key)))
             res.violate("oracle", key, msg, {"stream": "graph", "case": small, "impl": _safe(lambda: impl_observe_graph(small)["line"])})
         if il != m:
             res.disagreements += 1
             found = False
-            for nb in neighbours(case):
+            for nb in neighbours(case) if (not bad and _search_allowed(res)) else ():
                 b2 = graph_fails(nb)
                 if b2:
                     key, msg = b2[0]
@@ -835,7 +838,7 @@ def check_graph_cases(res: Result, cases, procs: int = 1, tag: str = "random") -
                     res.violate("oracle", key, msg, {"stream": "graph", "case": small, "impl": _safe(lambda: impl_observe_graph(small)["line"])})
                     found = True
                     break
-            if not found and not bad:
+            if not found and not bad and not _have_any(res):
                 res.violate(
                     "correspondence",
                     "graph-model-vs-impl",
@@ -844,6 +847,24 @@ def check_graph_cases(res: Result, cases, procs: int = 1, tag: str = "random") -
                 )
         else:
             res.traces_validated += 1
+
+
+def _have(res: Result, key: str) -> bool:
+    return any(v.kind == "oracle" and v.key == key for v in res.violations)
+
+
+def _have_any(res: Result) -> bool:
+    return any(v.kind == "oracle" for v in res.violations)
+
+
+def _search_allowed(res: Result) -> bool:
+    """The failing-input search around a model/implementation disagreement is run for the first few
+    disagreements only, and not at all once a property-violating input is already in hand."""
+    if any(v.kind == "oracle" for v in res.violations):
+        return False
+    n = res.extra.get("failing_input_searches", 0)
+    res.extra["failing_input_searches"] = n + 1
+    return n < 6
 
 
 def _safe(f):
@@ -875,12 +896,18 @@ def check_chain_cases(res: Result, cases, procs: int = 1) -> None:
             res.nontrivial(line + "#" + mode)
         res.sample({"protocol_line": line, "mode": mode, "impl": il, "model": m}, cap=8)
         for key, msg in bad:
+            res.count("oracle-fail:" + key)
+            if _have(res, key):
+                continue
             small = shrink_case(case, lambda c, key=key: bool(chain_fails(c, key)))
             res.violate("oracle", key, msg, {"stream": "chain", "case": small, "impl": impl_observe_chain(small)["line"]})
         agree = same_chain_line(il, m, exact=not cyc)
         if mode == "mdainit":
             im = next(imodel)
             for key, msg in oracle_order(case, order):
+                res.count("oracle-fail:" + key)
+                if _have(res, key):
+                    continue
                 small = shrink_case(case, lambda c, key=key: any(k == key for k, _ in oracle_order(c, order_impl(c))))
                 res.violate("oracle", key, msg, {"stream": "init-order", "case": small, "impl": order_impl(small)})
             if order != im:
@@ -904,8 +931,8 @@ def check_chain_cases(res: Result, cases, procs: int = 1) -> None:
                 res.notes.append(f"out-of-scope probe disagreement: impl={il} model={m} line={line}"[:400])
                 continue
             res.disagreements += 1
-            found = bool(bad)
-            if not found:
+            found = bool(bad) or _have_any(res)
+            if not found and _search_allowed(res):
                 for nb in neighbours(case):
                     b2 = chain_fails(nb)
                     if b2:
